@@ -34,12 +34,14 @@
                          Theorem (TLC): every held object satisfies MayRead; vzb restores the
                          caller's stream position.  Deviations break these as well.
 
-   DON'T-CARE (three-valued oracle).  The statement says "the entry count ... exceeds its limit"
-   and "Directory entries are ignored" without saying whether directory entries count as entries.
-   The code counts all of them (len(infolist())).  Vectors where the count of ALL entries exceeds
-   maxEntries, the count of non-directory entries does not, and no size/ratio clause fires are
-   DON'T-CARE: Conforms accepts either answer.  The loop theorem is proven for the code's reading
-   (Reject counts all entries), which lies inside the allowed band.
+   ENTRY COUNT.  The entry-count clause is about central-directory RECORDS: every record counts, explicit
+   directory records ("name/") included -- that is what the unchanged code does (len(infolist())), what
+   DESIGN.md 4/C11 fixes ("count of all entries > maxEntries"), and what the clause protects (the cost of
+   listing / holding the records).  "Directory entries are ignored" applies to the size and ratio
+   clauses.  An earlier version of this module left vectors whose count exceeds the limit only through
+   directory records as DON'T-CARE; that band is closed (MustReject = Reject, DontCare = FALSE) and
+   the deviation "CountFilesOnly" (count non-directory records only) must break the theorem.
+   The oracle keeps its three-valued shape (MustReject / MustAccept / DontCare) for the observation "other".
    Which clause is reported in the error message is not constrained either (variable `why`).     *)
 EXTENDS Naturals, Sequences, FiniteSets, TLC
 
@@ -50,7 +52,7 @@ CONSTANTS Deviations,      \* subset of DeviationNames; {} = reference design
 
 LoopDeviations  == {"CountGe", "SingleGe", "EntryRatioGe", "TotalGe", "TotalRatioGe",
                     "DropCount", "DropSingle", "DropZeroCs", "DropEntryRatio", "DropTotal",
-                    "DropTotalRatio", "CountDirs", "EntryRatioSwapped", "TotalRatioSwapped", "DirByAttr"}
+                    "DropTotalRatio", "CountDirs", "EntryRatioSwapped", "TotalRatioSwapped", "DirByAttr", "CountFilesOnly"}
 ProtoDeviations == {"DirectConstruct", "ReadBeforeValidate", "ReturnRejected", "XlsxSkipsValidate",
                     "NoRestorePos"}
 DeviationNames  == LoopDeviations \cup ProtoDeviations
@@ -70,6 +72,15 @@ L3 == Lim(3, 4, 6, 2, 1, 3, 1)           \* three entries allowed: totals over t
 LS_Base    == {L0}
 LS_Quick   == {L0, L1, L2}
 LS_Three   == {L0, L3}
+\* each limit tightened alone (all others so loose that they never fire on the lattice), each limit loosened
+\* alone (all others as in L0), everything loose
+Loose == Lim(100, 1000, 1000, 1000, 1, 1000, 1)
+LS_Alone   == { Loose,
+                [Loose EXCEPT !.maxEntries = 2], [Loose EXCEPT !.maxSingle = 4], [Loose EXCEPT !.maxTotal = 6],
+                [Loose EXCEPT !.trNum = 2], [Loose EXCEPT !.erNum = 3],
+                [L0 EXCEPT !.maxEntries = 100], [L0 EXCEPT !.maxSingle = 1000], [L0 EXCEPT !.maxTotal = 1000],
+                [L0 EXCEPT !.trNum = 1000], [L0 EXCEPT !.erNum = 1000] }
+LS_QuickAll == LS_Quick \cup LS_Alone
 \* every threshold at -1 / 0 / +1 around L0 (ratios in halves), all 243 combinations
 LS_Variants == { Lim(me, ms, mt, trn, 2, ern, 2) :
                    me \in 1..3, ms \in 3..5, mt \in 5..7, trn \in 3..5, ern \in 5..7 }
@@ -99,7 +110,7 @@ SizeReject(es, L) == \/ ClSingle(es, L) \/ ClZeroCs(es, L) \/ ClEntryRatio(es, L
                      \/ ClTotal(es, L) \/ ClTotZero(es, L) \/ ClTotRatio(es, L)
 
 Reject(es, L)     == ClCount(es, L) \/ SizeReject(es, L)           \* reference design = the code's reading
-MustReject(es, L) == ClCountFiles(es, L) \/ SizeReject(es, L)
+MustReject(es, L) == Reject(es, L)                                 \* every record counts (see ENTRY COUNT above)
 MustAccept(es, L) == ~Reject(es, L)
 DontCare(es, L)   == Reject(es, L) /\ ~MustReject(es, L)
 Class(es, L)      == IF MustReject(es, L) THEN "reject" ELSE IF MustAccept(es, L) THEN "accept" ELSE "dontcare"
@@ -156,7 +167,7 @@ Raise(reason) == /\ verdict' = "reject" /\ why' = reason /\ pc' = "done"
 \* if len(infos) > limits.max_entries: raise
 CheckCount ==
     /\ pc = "count"
-    /\ LET n == IF Dev("CountDirs") THEN Cardinality(Files(es)) ELSE Len(es) IN
+    /\ LET n == IF Dev("CountFilesOnly") THEN Cardinality(Files(es)) ELSE Len(es) IN
        IF ~Dev("DropCount") /\ Gt(n, L.maxEntries, "CountGe")
        THEN Raise("Count") /\ UNCHANGED <<es, L, i, totU, totC>>
        ELSE pc' = "loop" /\ UNCHANGED <<es, L, i, totU, totC, verdict, why>>
@@ -215,7 +226,8 @@ Inv_TotZeroRedundant == ClTotZero(es, L) => ClZeroCs(es, L)
 \* the three-valued oracle is consistent: the classes partition, the code's reading is allowed
 Inv_OracleConsistent == /\ ~(MustReject(es, L) /\ MustAccept(es, L))
                         /\ Conforms(es, L, Reject(es, L))
-                        /\ DontCare(es, L) => (ClCount(es, L) /\ ~SizeReject(es, L))
+                        /\ ~DontCare(es, L)
+                        /\ (ClCount(es, L) /\ ~ClCountFiles(es, L)) => MustReject(es, L)   \* count reached through directories
 
 (* ------------------------------------------------------------------ PART 3: protocol *)
 \* sites a recorder reports: "open_zipfile", "validate_zip_bytesio", "ZipContext" (the sanctioned helpers),
